@@ -144,11 +144,16 @@ def commands_for(facade, rng, quick):
             out.append((sw, cmd, None, acc, 1 if cmd == "turn_on" else 0, sw._keypad_button))
     wh = facade.water_heater
     if wh.is_present and "SetpointG" in spa.accessors:
-        for raw in (540, 684, 702) if quick else (270, 540, 541, 684, 702, 720):
-            out.append((wh, "set_temp", raw, spa.accessors["SetpointG"], raw, 0))
         u = spa.accessors["TempUnits"]
-        for unit in ("F", "C", "C", "F"):
+        # every tenth of a degree Fahrenheit / every half degree Celsius of the setpoint range (quick: a
+        # stride that still visits every last digit); this also makes one connection carry more
+        # commands than the command sequence counter has values
+        f_raws = list(range(270, 721, 7 if quick else 1))
+        c_raws = [9 * k for k in range(30, 81, 3 if quick else 1)]
+        for unit, raws in (("F", f_raws), ("C", c_raws), ("C", []), ("F", [540])):
             out.append((wh, "set_unit", unit, u, u.items.index(unit), 0))
+            for raw in raws:
+                out.append((wh, "set_temp", raw, spa.accessors["SetpointG"], raw, 0))
     for mode in (0, 3, 4, 2) if quick else range(5):
         out.append((facade.water_care, "set_wc", mode, None, mode, 0))
     return out
